@@ -1,7 +1,9 @@
 (* The execution-stack argument for top-down builds, for all programs, checkers, worlds and fuel:
    - a task that is executing (or being validated) is never entered again (C07: no re-entry, any cycle length);
    - within a session every task is executed at most once, and only if it was not yet consistent (C02);
-   - a nested build leaves the recorded dependencies of all tasks on the stack untouched (frame).
+   - a nested build leaves the recorded dependencies and outputs of all tasks on the stack untouched (frame);
+   - no internal-invariant error ("BUG" panics of the code: ABug 1, 2, 3, 5) can occur, also not in builds that start
+     from the store an aborted build left behind (C19).
    The stack S is a ghost: the list of tasks whose make_task_consistent is in progress, innermost first. *)
 From Coq Require Import List NArith ZArith Bool Lia.
 From PieV Require Import Model.Dag Model.Build Proofs.DagLib Proofs.DagWF Proofs.DagPath Proofs.DagAddEdge Proofs.DagViews
@@ -23,8 +25,17 @@ Lemma execs_app a b : execs (a ++ b) = execs a ++ execs b. Proof. unfold execs. 
 
 Definition cons_mono (w w' : world) : Prop := forall x, memN x (consistent w) = true -> memN x (consistent w') = true.
 
-(* what a (sub)computation did, relative to the stack S (recorded dependencies untouched) and the tasks G whose own
-   dependency lists may have grown; pend = executed tasks that are not yet marked consistent at the end *)
+(* the second store invariant (beside StoreOK): a reserved require edge only leaves a task without output (executing,
+   or aborted); a task marked consistent in the session has an output *)
+Definition NoRes (w : world) : Prop := forall t d, get_edata (gr w) (tn t) d = Some DReserved -> get_task_output w t = None.
+Definition ConsOut (w : world) : Prop := forall t, memN t (consistent w) = true -> get_task_output w t <> None.
+Definition Inv2 (w : world) : Prop := NoRes w /\ ConsOut w.
+Definition NoResAt (w : world) (t : task) : Prop := forall d, get_edata (gr w) (tn t) d <> Some DReserved.
+(* aborts that exist for a user-level reason (task panic, cycle, hidden dependency, overlapping write) *)
+Definition user_abort (k : akind) : Prop := match k with ABug _ => False | _ => True end.
+
+(* what a (sub)computation did, relative to the stack S (recorded dependencies and outputs untouched) and the tasks G whose
+   own dependency lists may have grown; pend = executed tasks that are not yet marked consistent at the end *)
 Record Post (S G pend : list task) (w w' : world) (seg : list event) : Prop := mkPost {
   po_ok : StoreOK w';
   po_frame : forall s, In s S -> kids_of (gr w') (tn s) = kids_of (gr w) (tn s);
@@ -35,10 +46,40 @@ Record Post (S G pend : list task) (w w' : world) (seg : list event) : Prop := m
   po_fresh : forall x, In x (execs seg) -> ~ In x S /\ ~ In x G /\ memN x (consistent w) = false;
   po_mono : cons_mono w w';
   po_cons : forall x, In x (execs seg) -> memN x (consistent w') = true \/ In x pend;
-  po_keep : forall s, In s S \/ In s G -> memN s (consistent w') = true -> memN s (consistent w) = true
+  po_keep : forall s, In s S \/ In s G -> memN s (consistent w') = true -> memN s (consistent w) = true;
+  po_eframe : forall s d, In s S -> get_edata (gr w') (tn s) d = get_edata (gr w) (tn s) d;
+  po_oframe : forall s, In s S \/ In s G -> get_task_output w' s = get_task_output w s;
+  po_inv : Inv2 w -> Inv2 w'
 }.
 
 Lemma tn_inj a b : tn a = tn b -> a = b. Proof. unfold tn. lia. Qed.
+
+(* ---- association lists ---- *)
+Lemma alookup_aremove_other {V} (l : list (N * V)) k k' : k' <> k -> alookup (aremove l k) k' = alookup l k'.
+Proof.
+  intros Hne. induction l as [|[a v] tl IH]; cbn; [reflexivity|].
+  destruct (N.eqb_spec a k) as [->|Ha]; cbn.
+  - destruct (N.eqb_spec k k'); [congruence|exact IH].
+  - destruct (N.eqb a k'); [reflexivity|exact IH].
+Qed.
+Lemma alookup_app_some {V} (l1 l2 : list (N * V)) k v : alookup l1 k = Some v -> alookup (l1 ++ l2) k = Some v.
+Proof. induction l1 as [|[a x] tl IH]; cbn; [discriminate|]. destruct (N.eqb a k); [tauto|exact IH]. Qed.
+Lemma alookup_app_none {V} (l1 l2 : list (N * V)) k : alookup l1 k = None -> alookup (l1 ++ l2) k = alookup l2 k.
+Proof. induction l1 as [|[a x] tl IH]; cbn; [reflexivity|]. destruct (N.eqb a k); [discriminate|exact IH]. Qed.
+Lemma alookup_aset_other {V} (l : list (N * V)) k v k' : k' <> k -> alookup (aset l k v) k' = alookup l k'.
+Proof.
+  intros Hne. unfold aset. destruct (alookup (aremove l k) k') as [x|] eqn:E.
+  - rewrite (alookup_app_some _ _ _ _ E). rewrite <- E. apply alookup_aremove_other. exact Hne.
+  - rewrite (alookup_app_none _ _ _ E). cbn. destruct (N.eqb_spec k k'); [congruence|]. rewrite <- E. apply alookup_aremove_other. exact Hne.
+Qed.
+Lemma alookup_aset_eq {V} (l : list (N * V)) k v : alookup (aset l k v) k = Some v.
+Proof.
+  unfold aset. assert (E : alookup (aremove l k) k = None).
+  { induction l as [|[a x] tl IH]; cbn; [reflexivity|]. destruct (N.eqb a k) eqn:Z; cbn; [exact IH|rewrite Z; exact IH]. }
+  rewrite (alookup_app_none _ _ _ E). cbn. rewrite N.eqb_refl. reflexivity.
+Qed.
+Lemma alookup_aremove_eq {V} (l : list (N * V)) k : alookup (aremove l k) k = None.
+Proof. induction l as [|[a x] tl IH]; cbn; [reflexivity|]. destruct (N.eqb a k) eqn:Z; cbn; [exact IH|rewrite Z; exact IH]. Qed.
 
 (* ---- chains ---- *)
 Lemma chain_path w S s : chain_ok w S -> In s S -> forall top, hd_error S = Some top -> s = top \/ path (gr w) (tn s) (tn top).
@@ -77,18 +118,31 @@ Proof. intros H. constructor; try tauto; try (intros; reflexivity); cbn; try con
 
 Lemma post_quiet S G w w' :
   StoreOK w' -> (forall m, kids_of (gr w') m = kids_of (gr w) m) -> (forall m, live (gr w) m = true -> live (gr w') m = true) ->
-  trace w' = trace w -> consistent w' = consistent w -> Post S G [] w w' [].
+  trace w' = trace w -> consistent w' = consistent w -> (forall u v, get_edata (gr w') u v = get_edata (gr w) u v) -> outs w' = outs w ->
+  Post S G [] w w' [].
 Proof.
-  intros H K L T M. constructor; try assumption; cbn; try constructor; try tauto.
-  - intros s _. apply K. - intros g x _ X. rewrite K. exact X.
+  intros H K L T M E O. constructor.
+  - exact H.
+  - intros s _. apply K.
+  - intros g x _ X. rewrite K. exact X.
+  - exact L.
+  - exact T.
+  - constructor.
+  - intros x [].
   - intros x X. rewrite M. exact X.
+  - intros x [].
   - intros s _ X. rewrite <- M. exact X.
+  - intros s d _. apply E.
+  - intros s _. unfold get_task_output. rewrite O. reflexivity.
+  - intros [N C]. split.
+    + intros t d X. rewrite E in X. unfold get_task_output. rewrite O. apply (N t d X).
+    + intros t X. rewrite M in X. unfold get_task_output. rewrite O. apply (C t X).
 Qed.
 
 Lemma post_seq S G pend w w1 w2 a b :
   Post S G [] w w1 a -> Post S G pend w1 w2 b -> Post S G pend w w2 (a ++ b).
 Proof.
-  intros [A1 A2 A3 A4 A5 A6 A7 A8 A9 A10] [B1 B2 B3 B4 B5 B6 B7 B8 B9 B10]. constructor.
+  intros [A1 A2 A3 A4 A5 A6 A7 A8 A9 A10 A11 A12 A13] [B1 B2 B3 B4 B5 B6 B7 B8 B9 B10 B11 B12 B13]. constructor.
   - exact B1.
   - intros s Hs. rewrite B2, A2 by exact Hs. reflexivity.
   - intros g x Hg X. apply B3; [exact Hg|]. apply A3; assumption.
@@ -103,20 +157,24 @@ Proof.
   - intros x X. rewrite execs_app in X. apply in_app_or in X. destruct X as [X|X]; [|apply B9; exact X].
     destruct (A9 x X) as [Z|[]]. left. apply B8. exact Z.
   - intros s Hs X. apply A10; [exact Hs|]. apply B10; assumption.
+  - intros s d Hs. rewrite B11, A11 by exact Hs. reflexivity.
+  - intros s Hs. rewrite B12, A12 by exact Hs. reflexivity.
+  - intros X. apply B13, A13. exact X.
 Qed.
 
-(* weaker record for aborted computations: what matters is what was executed before the abort *)
+(* weaker record for aborted computations: what was executed before the abort, and the invariants of the store left behind *)
 Record PostA (S G : list task) (w w' : world) (seg : list event) : Prop := mkPostA {
   pa_ok : StoreOK w';
   pa_seg : trace w' = rev seg ++ trace w;
   pa_nodup : NoDup (execs seg);
-  pa_fresh : forall x, In x (execs seg) -> ~ In x S /\ ~ In x G /\ memN x (consistent w) = false
+  pa_fresh : forall x, In x (execs seg) -> ~ In x S /\ ~ In x G /\ memN x (consistent w) = false;
+  pa_inv : Inv2 w -> Inv2 w'
 }.
 Lemma post_to_A S G pend w w' seg : Post S G pend w w' seg -> PostA S G w w' seg.
-Proof. intros [A1 A2 A3 A4 A5 A6 A7 A8 A9 A10]. constructor; assumption. Qed.
+Proof. intros [A1 A2 A3 A4 A5 A6 A7 A8 A9 A10 A11 A12 A13]. constructor; assumption. Qed.
 Lemma postA_seq S G w w1 w2 a b : Post S G [] w w1 a -> PostA S G w1 w2 b -> PostA S G w w2 (a ++ b).
 Proof.
-  intros [A1 A2 A3 A4 A5 A6 A7 A8 A9 A10] [B1 B5 B6 B7]. constructor.
+  intros [A1 A2 A3 A4 A5 A6 A7 A8 A9 A10 A11 A12 A13] [B1 B5 B6 B7 B13]. constructor.
   - exact B1.
   - rewrite B5, A5, rev_app_distr, app_assoc. reflexivity.
   - rewrite execs_app. apply NoDup_app_intro_t; try assumption.
@@ -124,12 +182,13 @@ Proof.
   - intros x X. rewrite execs_app in X. apply in_app_or in X. destruct X as [X|X]; [apply A7; exact X|].
     destruct (B7 x X) as [P1 [P2 P3]]. split; [exact P1|]. split; [exact P2|].
     destruct (memN x (consistent w)) eqn:Z; [|reflexivity]. apply A8 in Z. congruence.
+  - intros X. apply B13, A13. exact X.
 Qed.
 
 Definition okP {A} (S G pend : list task) (w : world) (m : outcome A) (extra : A -> world -> Prop) : Prop :=
   match m with
   | Done a w' => (exists seg, Post S G pend w w' seg) /\ extra a w'
-  | Abort k w' => k = ABug 4 \/ exists seg, PostA S G w w' seg
+  | Abort k w' => k = ABug 4 \/ (user_abort k /\ exists seg, PostA S G w w' seg)
   | OutOfFuel => True
   end.
 
@@ -139,22 +198,26 @@ Record Leaf (t : task) (w w' : world) : Prop := mkLeaf {
   lf_grows : grows_at (gr w) (gr w') (tn t);
   lf_seg : exists seg, trace w' = rev seg ++ trace w /\ execs seg = [];
   lf_cons : consistent w' = consistent w;
-  lf_cur : cur w' = cur w
+  lf_cur : cur w' = cur w;
+  lf_eother : forall m d, m <> tn t -> get_edata (gr w') m d = get_edata (gr w) m d;
+  lf_outs : outs w' = outs w
 }.
 
 Lemma leaf_refl t w : StoreOK w -> Leaf t w w.
-Proof. intros H. constructor; [exact H|apply grows_refl|exists []; split; reflexivity|reflexivity|reflexivity]. Qed.
+Proof. intros H. constructor; [exact H|apply grows_refl|exists []; split; reflexivity|reflexivity|reflexivity|reflexivity|reflexivity]. Qed.
 Lemma leaf_trans t w1 w2 w3 : Leaf t w1 w2 -> Leaf t w2 w3 -> Leaf t w1 w3.
 Proof.
-  intros [A1 A2 [sa [A3 A3']] A4 A5] [B1 B2 [sb [B3 B3']] B4 B5]. constructor.
+  intros [A1 A2 [sa [A3 A3']] A4 A5 A6 A7] [B1 B2 [sb [B3 B3']] B4 B5 B6 B7]. constructor.
   - exact B1. - eapply grows_trans; eassumption.
   - exists (sa ++ sb). split; [rewrite B3, A3, rev_app_distr, app_assoc; reflexivity|rewrite execs_app, A3', B3'; reflexivity].
   - congruence. - congruence.
+  - intros m d Hm. rewrite B6, A6 by exact Hm. reflexivity.
+  - congruence.
 Qed.
 Definition noexec (e : event) : Prop := match e with EExecStart _ => False | _ => True end.
 Lemma leaf_emit t w e : StoreOK w -> noexec e -> Leaf t w (emit w e).
 Proof.
-  intros H N. constructor; [exact H|apply grows_refl| |reflexivity|reflexivity].
+  intros H N. constructor; [exact H|apply grows_refl| |reflexivity|reflexivity|reflexivity|reflexivity].
   exists [e]. split; [reflexivity|]. destruct e; try reflexivity. destruct N.
 Qed.
 Lemma leaf_goc_res t w r : StoreOK w -> Leaf t w (get_or_create_resource_node w r).
@@ -166,6 +229,8 @@ Proof.
   - exists []. split; [|reflexivity]. unfold get_or_create_resource_node. destruct (live _ _); reflexivity.
   - unfold get_or_create_resource_node. destruct (live _ _); reflexivity.
   - unfold get_or_create_resource_node. destruct (live _ _); reflexivity.
+  - intros m d _. unfold get_or_create_resource_node. destruct (live _ _); reflexivity.
+  - unfold get_or_create_resource_node. destruct (live _ _); reflexivity.
 Qed.
 Lemma leaf_goc_task t w x : StoreOK w -> Leaf t w (get_or_create_task_node w x).
 Proof.
@@ -176,11 +241,30 @@ Proof.
   - exists []. split; [|reflexivity]. unfold get_or_create_task_node. destruct (live _ _); reflexivity.
   - unfold get_or_create_task_node. destruct (live _ _); reflexivity.
   - unfold get_or_create_task_node. destruct (live _ _); reflexivity.
+  - intros m d _. unfold get_or_create_task_node. destruct (live _ _); reflexivity.
+  - unfold get_or_create_task_node. destruct (live _ _); reflexivity.
 Qed.
 Lemma leaf_set_content t w r v : StoreOK w -> Leaf t w (set_content w r v).
-Proof. intros H. destruct v; (constructor; [exact H|apply grows_refl|exists []; split; reflexivity|reflexivity|reflexivity]). Qed.
+Proof. intros H. destruct v; (constructor; [exact H|apply grows_refl|exists []; split; reflexivity|reflexivity|reflexivity|reflexivity|reflexivity]). Qed.
 
 (* adding a dependency from the executing task *)
+Lemma add_dependency_edata w s d dp :
+  WF (gr w) ->
+  match add_dependency w s d dp with
+  | (AddBug, _) => True
+  | (_, w') => forall m v, get_edata (gr w') m v = get_edata (gr w) m v \/
+                           (m = s /\ v = d /\ get_edata (gr w) m v = None /\ get_edata (gr w') m v = Some dp)
+  end.
+Proof.
+  intros W. unfold add_dependency. pose proof (add_edge_view (gr w) s d dp W) as V.
+  destruct (add_edge (gr w) s d dp) as [[[|]|[|]|] g'] eqn:E; cbn [fst snd] in *; cbn [gr set_gr]; try exact I.
+  - destruct V as [NK [_ [_ [_ VE]]]]. intros m v. rewrite VE. destruct (pair_eqb (s, d) (m, v)) eqn:Z; [|left; reflexivity].
+    apply pair_eqb_eq in Z. inversion Z; subst. right. repeat split.
+    destruct (get_edata (gr w) m v) eqn:X; [|reflexivity]. exfalso. apply NK. apply (wf_edata _ W). congruence.
+  - destruct V as [-> _]. intros; left; reflexivity.
+  - rewrite V. intros; left; reflexivity.
+Qed.
+
 Lemma leaf_add_dependency t w d dp :
   StoreOK w -> dep_target_ok d dp ->
   (is_write (Some dp) = true -> forall r, d = rn r -> writers (gr w) r = []) ->
@@ -191,11 +275,13 @@ Lemma leaf_add_dependency t w d dp :
 Proof.
   intros H Hd Hw. pose proof (add_dependency_ok w (tn t) d dp H (tn_even t) Hd Hw) as A.
   pose proof (add_dependency_grows w (tn t) d dp (proj1 H)) as G.
-  assert (T : forall w', snd (add_dependency w (tn t) d dp) = w' -> trace w' = trace w /\ consistent w' = consistent w /\ cur w' = cur w).
+  pose proof (add_dependency_edata w (tn t) d dp (proj1 H)) as ED.
+  assert (T : forall w', snd (add_dependency w (tn t) d dp) = w' -> trace w' = trace w /\ consistent w' = consistent w /\ cur w' = cur w /\ outs w' = outs w).
   { intros w' <-. unfold add_dependency. destruct (add_edge _ _ _ _) as [[b|[|]|] g']; repeat split. }
   destruct (add_dependency w (tn t) d dp) as [[| |] w']; cbn [snd] in *; try exact I;
-  destruct (T w' eq_refl) as [T1 [T2 T3]];
-  (constructor; [exact A|exact G|exists []; split; [exact T1|reflexivity]|exact T2|exact T3]).
+  destruct (T w' eq_refl) as [T1 [T2 [T3 T4]]];
+  (constructor; [exact A|exact G|exists []; split; [exact T1|reflexivity]|exact T2|exact T3| |exact T4]);
+  intros m v Hm; (destruct (ED m v) as [X|[X _]]; [exact X|congruence]).
 Qed.
 
 Lemma add_dependency_edge w s d dp w' :
@@ -207,43 +293,80 @@ Proof.
   - destruct V as [-> X]. exact X.
 Qed.
 
+(* a leaf step keeps the second invariant, provided the executing task has no output (it was reset) *)
+Lemma leaf_inv t w w' : Leaf t w w' -> get_task_output w t = None -> Inv2 w -> Inv2 w'.
+Proof.
+  intros [A1 A2 A3 A4 A5 A6 A7] Ho [N C]. split.
+  - intros t' d X. unfold get_task_output. rewrite A7. destruct (N.eq_dec t' t) as [->|Hne]; [exact Ho|].
+    rewrite A6 in X by (intros E; apply tn_inj in E; contradiction). apply (N t' d X).
+  - intros t' X. rewrite A4 in X. unfold get_task_output. rewrite A7. apply (C t' X).
+Qed.
+Lemma leaf_out t w w' x : Leaf t w w' -> get_task_output w' x = get_task_output w x.
+Proof. intros L. unfold get_task_output. rewrite (lf_outs _ _ _ L). reflexivity. Qed.
+
+Definition leafO {A} (t : task) (w : world) (m : outcome A) : Prop :=
+  match m with Done _ w' => Leaf t w w' | Abort k w' => k = ABug 4 \/ (user_abort k /\ Leaf t w w') | OutOfFuel => True end.
+(* the dependency data of the executing task after a read/write: nothing reserved is added *)
+Definition noresO {A} (t : task) (m : outcome A) : Prop :=
+  match m with Done _ w' => NoResAt w' t | Abort k w' => k = ABug 4 \/ NoResAt w' t | OutOfFuel => True end.
+
+Lemma nores_add t w d dp : WF (gr w) -> dp <> DReserved -> NoResAt w t ->
+  match add_dependency w (tn t) d dp with (AddBug, _) => True | (_, w') => NoResAt w' t end.
+Proof.
+  intros W Hdp Hn. pose proof (add_dependency_edata w (tn t) d dp W) as ED.
+  destruct (add_dependency w (tn t) d dp) as [[| |] w']; try exact I;
+  (intros v X; destruct (ED (tn t) v) as [Y|[_ [_ [_ Y]]]]; [rewrite Y in X; apply (Hn v X)|rewrite Y in X; inversion X; congruence]).
+Qed.
+Lemma nores_same t w w' : (forall u v, get_edata (gr w') u v = get_edata (gr w) u v) -> NoResAt w t -> NoResAt w' t.
+Proof. intros E Hn d. rewrite E. apply Hn. Qed.
+Lemma edata_goc_res w r u v : get_edata (gr (get_or_create_resource_node w r)) u v = get_edata (gr w) u v.
+Proof. unfold get_or_create_resource_node. destruct (live _ _); reflexivity. Qed.
+Lemma edata_goc_task w r u v : get_edata (gr (get_or_create_task_node w r)) u v = get_edata (gr w) u v.
+Proof. unfold get_or_create_task_node. destruct (live _ _); reflexivity. Qed.
+Lemma edata_set_content w r c u v : get_edata (gr (set_content w r c)) u v = get_edata (gr w) u v.
+Proof. destruct c; reflexivity. Qed.
+
 Section X.
 Variable RC : rcid -> rchecker.
 Variable OC : ocid -> ochecker.
 Variable P : task -> prog.
 
-Lemma sess_read_leaf w t r c : StoreOK w -> cur w = Some t ->
-  match sess_read RC w r c with
-  | Done _ w' => Leaf t w w'
-  | Abort k w' => k = ABug 4 \/ Leaf t w w'
-  | OutOfFuel => True
-  end.
+Lemma sess_read_leaf w t r c : StoreOK w -> cur w = Some t -> leafO t w (sess_read RC w r c).
 Proof.
   intros H Hc. unfold sess_read. rewrite Hc.
   assert (L2 : Leaf t w (get_or_create_resource_node (emit w (EReadStart r c)) r)).
   { eapply leaf_trans; [apply (leaf_emit t w (EReadStart r c) H Logic.I)|apply leaf_goc_res; exact H]. }
   set (w2 := get_or_create_resource_node (emit w (EReadStart r c)) r) in *.
-  destruct (hidden_read_check w2 t r); [right; exact L2|].
+  destruct (hidden_read_check w2 t r); [right; split; [exact Logic.I|exact L2]|].
   destruct (rc_stamp _ _ _ _) as [st|e]; [|exact L2].
   assert (L3 : Leaf t w (emit w2 (EReadEnd r c st))) by (eapply leaf_trans; [exact L2|apply leaf_emit; [apply L2|exact Logic.I]]).
   pose proof (leaf_add_dependency t (emit w2 (EReadEnd r c st)) (rn r) (DRead r c st) (lf_ok _ _ _ L3) eq_refl) as A.
   assert (Hw : is_write (Some (DRead r c st)) = true -> forall r0, rn r = rn r0 -> writers (gr (emit w2 (EReadEnd r c st))) r0 = []) by (intros X; discriminate).
-  specialize (A Hw). destruct (add_dependency _ _ _ _) as [[| |] w4].
+  specialize (A Hw). destruct (add_dependency _ _ _ _) as [[| |] w4]; cbn [leafO].
   - eapply leaf_trans; eassumption. - eapply leaf_trans; eassumption. - left. reflexivity.
 Qed.
+Lemma sess_read_nores w t r c : StoreOK w -> cur w = Some t -> NoResAt w t -> noresO t (sess_read RC w r c).
+Proof.
+  intros H Hc Hn. unfold sess_read. rewrite Hc.
+  set (w2 := get_or_create_resource_node (emit w (EReadStart r c)) r).
+  assert (N2 : NoResAt w2 t) by (eapply nores_same; [|exact Hn]; intros u v; unfold w2; rewrite edata_goc_res; reflexivity).
+  assert (W2 : WF (gr w2)) by (apply goc_res_ok; exact H).
+  destruct (hidden_read_check w2 t r); [right; exact N2|].
+  destruct (rc_stamp _ _ _ _) as [st|e]; [|exact N2].
+  pose proof (nores_add t (emit w2 (EReadEnd r c st)) (rn r) (DRead r c st) W2 ltac:(discriminate) N2) as A.
+  destruct (add_dependency _ _ _ _) as [[| |] w4]; cbn [noresO]; [exact A|exact A|left; reflexivity].
+Qed.
 
-Lemma sess_write_leaf w t r c v : StoreOK w -> cur w = Some t ->
-  match sess_write RC w r c v with
-  | Done _ w' => Leaf t w w'
-  | Abort k w' => k = ABug 4 \/ Leaf t w w'
-  | OutOfFuel => True
-  end.
+Lemma validate_write_user w t r k : validate_write w t r = Some k -> user_abort k.
+Proof. unfold validate_write. destruct (get_task_writing_to_resource w r); [intros X; inversion X; exact I|]. destruct (existsb _ _); intros X; inversion X. exact I. Qed.
+
+Lemma sess_write_leaf w t r c v : StoreOK w -> cur w = Some t -> leafO t w (sess_write RC w r c v).
 Proof.
   intros H Hc. unfold sess_write. rewrite Hc.
   assert (L2 : Leaf t w (get_or_create_resource_node (emit w (EWriteStart r c)) r)).
   { eapply leaf_trans; [apply (leaf_emit t w (EWriteStart r c) H Logic.I)|apply leaf_goc_res; exact H]. }
   set (w2 := get_or_create_resource_node (emit w (EWriteStart r c)) r) in *.
-  destruct (validate_write w2 t r) as [k|] eqn:V; [right; exact L2|].
+  destruct (validate_write w2 t r) as [k|] eqn:V; [right; split; [eapply validate_write_user; exact V|exact L2]|].
   assert (NW : get_task_writing_to_resource w2 r = None).
   { unfold validate_write in V. destruct (get_task_writing_to_resource w2 r); [discriminate|reflexivity]. }
   assert (L3 : Leaf t w (set_content w2 r v)) by (eapply leaf_trans; [exact L2|apply leaf_set_content; apply L2]).
@@ -253,16 +376,24 @@ Proof.
   assert (G : gr (emit (set_content w2 r v) (EWriteEnd r c st)) = gr w2) by (destruct v; reflexivity).
   assert (Hw : is_write (Some (DWrite r c st)) = true -> forall r0, rn r = rn r0 -> writers (gr (emit (set_content w2 r v) (EWriteEnd r c st))) r0 = []).
   { intros _ r0 E. assert (r = r0) by (unfold rn in E; lia). subst r0. rewrite G. apply writers_nil_of_none. exact NW. }
-  specialize (A Hw). destruct (add_dependency _ _ _ _) as [[| |] w5].
+  specialize (A Hw). destruct (add_dependency _ _ _ _) as [[| |] w5]; cbn [leafO].
   - eapply leaf_trans; eassumption. - eapply leaf_trans; eassumption. - left. reflexivity.
 Qed.
+Lemma sess_write_nores w t r c v : StoreOK w -> cur w = Some t -> NoResAt w t -> noresO t (sess_write RC w r c v).
+Proof.
+  intros H Hc Hn. unfold sess_write. rewrite Hc.
+  set (w2 := get_or_create_resource_node (emit w (EWriteStart r c)) r).
+  assert (N2 : NoResAt w2 t) by (eapply nores_same; [|exact Hn]; intros u x; unfold w2; rewrite edata_goc_res; reflexivity).
+  assert (W2 : WF (gr w2)) by (apply goc_res_ok; exact H).
+  destruct (validate_write w2 t r) as [k|]; [right; exact N2|].
+  assert (N3 : NoResAt (set_content w2 r v) t) by (eapply nores_same; [|exact N2]; intros u x; apply edata_set_content).
+  destruct (rc_stamp _ _ _ _) as [st|e]; [|exact N3].
+  assert (W3 : WF (gr (emit (set_content w2 r v) (EWriteEnd r c st)))) by (destruct v; exact W2).
+  pose proof (nores_add t (emit (set_content w2 r v) (EWriteEnd r c st)) (rn r) (DWrite r c st) W3 ltac:(discriminate) N3) as A.
+  destruct (add_dependency _ _ _ _) as [[| |] w4]; cbn [noresO]; [exact A|exact A|left; reflexivity].
+Qed.
 
-Lemma sess_written_to_leaf w0 t r c v : StoreOK w0 -> cur w0 = Some t ->
-  match sess_written_to RC w0 r c v with
-  | Done _ w' => Leaf t w0 w'
-  | Abort k w' => k = ABug 4 \/ Leaf t w0 w'
-  | OutOfFuel => True
-  end.
+Lemma sess_written_to_leaf w0 t r c v : StoreOK w0 -> cur w0 = Some t -> leafO t w0 (sess_written_to RC w0 r c v).
 Proof.
   intros H Hc. unfold sess_written_to.
   assert (L1 : Leaf t w0 (set_content w0 r v)) by (apply leaf_set_content; exact H).
@@ -271,7 +402,7 @@ Proof.
   assert (L2 : Leaf t w0 (get_or_create_resource_node (emit w (EWriteStart r c)) r)).
   { eapply leaf_trans; [exact L1|]. eapply leaf_trans; [apply (leaf_emit t w (EWriteStart r c) (lf_ok _ _ _ L1) Logic.I)|apply leaf_goc_res; apply L1]. }
   set (w2 := get_or_create_resource_node (emit w (EWriteStart r c)) r) in *.
-  destruct (validate_write w2 t r) as [k|] eqn:V; [right; exact L2|].
+  destruct (validate_write w2 t r) as [k|] eqn:V; [right; split; [eapply validate_write_user; exact V|exact L2]|].
   assert (NW : get_task_writing_to_resource w2 r = None).
   { unfold validate_write in V. destruct (get_task_writing_to_resource w2 r); [discriminate|reflexivity]. }
   destruct (rc_stamp _ _ _ _) as [st|e]; [|exact L2].
@@ -279,16 +410,30 @@ Proof.
   pose proof (leaf_add_dependency t (emit w2 (EWriteEnd r c st)) (rn r) (DWrite r c st) (lf_ok _ _ _ L4) eq_refl) as A.
   assert (Hw : is_write (Some (DWrite r c st)) = true -> forall r0, rn r = rn r0 -> writers (gr (emit w2 (EWriteEnd r c st))) r0 = []).
   { intros _ r0 E. assert (r = r0) by (unfold rn in E; lia). subst r0. apply writers_nil_of_none. exact NW. }
-  specialize (A Hw). destruct (add_dependency _ _ _ _) as [[| |] w5].
+  specialize (A Hw). destruct (add_dependency _ _ _ _) as [[| |] w5]; cbn [leafO].
   - eapply leaf_trans; eassumption. - eapply leaf_trans; eassumption. - left. reflexivity.
 Qed.
-
+Lemma sess_written_to_nores w0 t r c v : StoreOK w0 -> cur w0 = Some t -> NoResAt w0 t -> noresO t (sess_written_to RC w0 r c v).
+Proof.
+  intros H Hc Hn. unfold sess_written_to.
+  set (w := set_content w0 r v).
+  assert (Hc' : cur w = Some t) by (unfold w; destruct v; exact Hc). rewrite Hc'.
+  set (w2 := get_or_create_resource_node (emit w (EWriteStart r c)) r).
+  assert (N2 : NoResAt w2 t).
+  { eapply nores_same; [|exact Hn]. intros u x. unfold w2. rewrite edata_goc_res. apply (edata_set_content w0 r v). }
+  assert (W2 : WF (gr w2)) by (apply goc_res_ok; destruct v; exact H).
+  destruct (validate_write w2 t r) as [k|]; [right; exact N2|].
+  destruct (rc_stamp _ _ _ _) as [st|e]; [|exact N2].
+  pose proof (nores_add t (emit w2 (EWriteEnd r c st)) (rn r) (DWrite r c st) W2 ltac:(discriminate) N2) as A.
+  destruct (add_dependency _ _ _ _) as [[| |] w4]; cbn [noresO]; [exact A|exact A|left; reflexivity].
+Qed.
 End X.
 
-(* a leaf step of the executing task t, seen from the stack t :: S *)
-Lemma leaf_post S t pend w w' : Leaf t w w' -> ~ In t S -> exists seg, Post S [t] pend w w' seg.
+(* a leaf step of the executing task t (which has no output: it was reset), seen from the stack t :: S *)
+Lemma leaf_post S t pend w w' : Leaf t w w' -> ~ In t S -> get_task_output w t = None -> exists seg, Post S [t] pend w w' seg.
 Proof.
-  intros [A1 [G1 [G2 G3]] [seg [A3 A3']] A4 A5] Ht. exists seg. constructor.
+  intros L Ht Ho. pose proof (leaf_inv t w w' L Ho) as LI.
+  destruct L as [A1 [G1 [G2 G3]] [seg [A3 A3']] A4 A5 A6 A7]. exists seg. constructor.
   - exact A1.
   - intros s Hs. apply G1. intros E. apply tn_inj in E. subst. tauto.
   - intros g x [<-|[]] X. apply G2. exact X.
@@ -299,39 +444,47 @@ Proof.
   - intros x X. rewrite A4. exact X.
   - rewrite A3'. intros x [].
   - intros s _ X. rewrite <- A4. exact X.
+  - intros s d Hs. apply A6. intros E. apply tn_inj in E. subst. tauto.
+  - intros s _. unfold get_task_output. rewrite A7. reflexivity.
+  - exact LI.
 Qed.
-Lemma leaf_postA S t w w' : Leaf t w w' -> exists seg, PostA S [t] w w' seg.
+Lemma leaf_postA S t w w' : Leaf t w w' -> get_task_output w t = None -> exists seg, PostA S [t] w w' seg.
 Proof.
-  intros [A1 _ [seg [A3 A3']] _ _]. exists seg. constructor; [exact A1|exact A3|rewrite A3'; constructor|rewrite A3'; intros x []].
+  intros L Ho. pose proof (leaf_inv t w w' L Ho) as LI.
+  destruct L as [A1 _ [seg [A3 A3']] _ _ _ _]. exists seg.
+  constructor; [exact A1|exact A3|rewrite A3'; constructor|rewrite A3'; intros x []|exact LI].
 Qed.
-
 
 (* ---- more Post algebra ---- *)
 Lemma post_shift S t pend w w' seg : Post (t :: S) [] pend w w' seg -> Post S [t] pend w w' seg.
 Proof.
-  intros [A1 A2 A3 A4 A5 A6 A7 A8 A9 A10]. constructor; try assumption.
+  intros [A1 A2 A3 A4 A5 A6 A7 A8 A9 A10 A11 A12 A13]. constructor; try assumption.
   - intros s Hs. apply A2. right. exact Hs.
   - intros g x [<-|[]] X. rewrite A2 by (left; reflexivity). exact X.
   - intros x X. destruct (A7 x X) as [P1 [_ P3]]. split; [intros Y; apply P1; right; exact Y|].
     split; [intros [<-|[]]; apply P1; left; reflexivity|exact P3].
   - intros s [Hs|[<-|[]]]; apply A10; left; [right; exact Hs|left; reflexivity].
+  - intros s d Hs. apply A11. right. exact Hs.
+  - intros s [Hs|[<-|[]]]; apply A12; left; [right; exact Hs|left; reflexivity].
 Qed.
 Lemma post_drop S t pend w w' seg : Post (t :: S) [] pend w w' seg -> Post S [] pend w w' seg.
 Proof.
-  intros [A1 A2 A3 A4 A5 A6 A7 A8 A9 A10]. constructor; try assumption.
+  intros [A1 A2 A3 A4 A5 A6 A7 A8 A9 A10 A11 A12 A13]. constructor; try assumption.
   - intros s Hs. apply A2. right. exact Hs.
   - intros x X. destruct (A7 x X) as [P1 [_ P3]]. split; [intros Y; apply P1; right; exact Y|]. split; [intros []|exact P3].
   - intros s [Hs|[]]. apply A10. left. right. exact Hs.
+  - intros s d Hs. apply A11. right. exact Hs.
+  - intros s [Hs|[]]. apply A12. left. right. exact Hs.
 Qed.
 Lemma postA_shift S t w w' seg : PostA (t :: S) [] w w' seg -> PostA S [t] w w' seg.
 Proof.
-  intros [A1 A5 A6 A7]. constructor; try assumption.
+  intros [A1 A5 A6 A7 A13]. constructor; try assumption.
   intros x X. destruct (A7 x X) as [P1 [_ P3]]. split; [intros Y; apply P1; right; exact Y|].
   split; [intros [<-|[]]; apply P1; left; reflexivity|exact P3].
 Qed.
 Lemma postA_drop S t w w' seg : PostA (t :: S) [] w w' seg -> PostA S [] w w' seg.
 Proof.
-  intros [A1 A5 A6 A7]. constructor; try assumption.
+  intros [A1 A5 A6 A7 A13]. constructor; try assumption.
   intros x X. destruct (A7 x X) as [P1 [_ P3]]. split; [intros Y; apply P1; right; exact Y|]. split; [intros []|exact P3].
 Qed.
 
@@ -341,24 +494,28 @@ Proof.
   constructor.
   - exact H. - intros; reflexivity. - intros g x _ X; exact X. - intros m X; exact X. - reflexivity.
   - rewrite E. constructor. - rewrite E. intros x []. - intros x X; exact X. - rewrite E. intros x [].
-  - intros s _ X; exact X.
+  - intros s _ X; exact X. - intros; reflexivity. - intros; reflexivity. - intros X; exact X.
 Qed.
 Lemma post_push_err S G w e : StoreOK w -> Post S G [] w (push_err w e) [].
 Proof. intros H. apply post_quiet; try reflexivity; tauto. Qed.
 
 Lemma memN_cons x t l : memN x (t :: l) = N.eqb x t || memN x l. Proof. reflexivity. Qed.
-Lemma post_mark S G t w w' seg : Post S G [t] w w' seg -> ~ In t S -> ~ In t G -> Post S G [] w (mark_consistent w' t) seg.
+Lemma post_mark S G t w w' seg : Post S G [t] w w' seg -> ~ In t S -> ~ In t G -> get_task_output w' t <> None ->
+  Post S G [] w (mark_consistent w' t) seg.
 Proof.
-  intros [A1 A2 A3 A4 A5 A6 A7 A8 A9 A10] HS HG. constructor; try assumption.
+  intros [A1 A2 A3 A4 A5 A6 A7 A8 A9 A10 A11 A12 A13] HS HG Ho. constructor; try assumption.
   - intros x X. unfold mark_consistent. cbn [consistent set_consistent]. rewrite memN_cons, (A8 x X). apply orb_true_r.
   - intros x X. left. unfold mark_consistent. cbn [consistent set_consistent]. rewrite memN_cons.
     destruct (A9 x X) as [Z|[<-|[]]]; [rewrite Z; apply orb_true_r|rewrite N.eqb_refl; reflexivity].
   - intros s Hs X. unfold mark_consistent in X. cbn [consistent set_consistent] in X. rewrite memN_cons in X.
     destruct (N.eqb_spec s t) as [->|Hne]; [destruct Hs; tauto|]. apply A10; assumption.
+  - intros X. destruct (A13 X) as [N C]. split; [exact N|].
+    intros x Y. unfold mark_consistent in Y. cbn [consistent set_consistent] in Y. rewrite memN_cons in Y.
+    change (get_task_output w' x <> None). destruct (N.eq_dec x t) as [E|Hne]; [subst x; exact Ho|].
+    apply C. rewrite (proj2 (N.eqb_neq x t) Hne) in Y. exact Y.
 Qed.
-
 Lemma post_pend S G pend w w' seg : Post S G [] w w' seg -> Post S G pend w w' seg.
-Proof. intros [A1 A2 A3 A4 A5 A6 A7 A8 A9 A10]. constructor; try assumption. intros x X. destruct (A9 x X) as [Z|[]]. left. exact Z. Qed.
+Proof. intros [A1 A2 A3 A4 A5 A6 A7 A8 A9 A10 A11 A12 A13]. constructor; try assumption. intros x X. destruct (A9 x X) as [Z|[]]. left. exact Z. Qed.
 
 (* composition through outcomes *)
 Lemma okP_pre {A} S G pend w w1 a (m : outcome A) extra :
@@ -366,7 +523,7 @@ Lemma okP_pre {A} S G pend w w1 a (m : outcome A) extra :
 Proof.
   intros P1. destruct m as [x w2|k w2|]; cbn; [| |tauto].
   - intros [[b P2] X]. split; [|exact X]. exists (a ++ b). eapply post_seq; eassumption.
-  - intros [->|[b P2]]; [left; reflexivity|right]. exists (a ++ b). eapply postA_seq; eassumption.
+  - intros [->|[U [b P2]]]; [left; reflexivity|right]. split; [exact U|]. exists (a ++ b). eapply postA_seq; eassumption.
 Qed.
 Lemma okP_bind {A B} S G pend w (m : outcome A) (f : A -> world -> outcome B) extraA extraB :
   okP S G [] w m extraA ->
@@ -381,26 +538,27 @@ Lemma okP_shift {A} S t pend w (m : outcome A) extra : okP (t :: S) [] pend w m 
 Proof.
   destruct m as [x w1|k w1|]; cbn; [| |tauto].
   - intros [[a P1] X]. split; [exists a; apply post_shift; exact P1|exact X].
-  - intros [->|[a P1]]; [left; reflexivity|right; exists a; apply postA_shift; exact P1].
+  - intros [->|[U [a P1]]]; [left; reflexivity|right; split; [exact U|]; exists a; apply postA_shift; exact P1].
 Qed.
 Lemma okP_drop {A} S t pend w (m : outcome A) extra : okP (t :: S) [] pend w m extra -> okP S [] pend w m extra.
 Proof.
   destruct m as [x w1|k w1|]; cbn; [| |tauto].
   - intros [[a P1] X]. split; [exists a; apply (post_drop S t); exact P1|exact X].
-  - intros [->|[a P1]]; [left; reflexivity|right; exists a; apply (postA_drop S t); exact P1].
+  - intros [->|[U [a P1]]]; [left; reflexivity|right; split; [exact U|]; exists a; apply (postA_drop S t); exact P1].
 Qed.
 Lemma okP_extra {A} S G pend w (m : outcome A) (e1 e2 : A -> world -> Prop) :
   (forall a w', e1 a w' -> e2 a w') -> okP S G pend w m e1 -> okP S G pend w m e2.
 Proof. intros F. destruct m; cbn; [|tauto|tauto]. intros [X Y]. split; [exact X|apply F; exact Y]. Qed.
+Lemma okP_abort {A} S G pend w k extra : user_abort k -> StoreOK w -> okP S G pend w (@Abort A k w) extra.
+Proof. intros U H. right. split; [exact U|]. exists []. apply (post_to_A S G []). apply post_refl. exact H. Qed.
 
-Definition leafO {A} (t : task) (w : world) (m : outcome A) : Prop :=
-  match m with Done _ w' => Leaf t w w' | Abort k w' => k = ABug 4 \/ Leaf t w w' | OutOfFuel => True end.
 Lemma okP_of_leafO {A} S t w (m : outcome A) :
-  ~ In t S -> cur w = Some t -> leafO t w m -> okP S [t] [] w m (fun _ w' => cur w' = Some t).
+  ~ In t S -> cur w = Some t -> get_task_output w t = None -> NoResAt w t -> leafO t w m -> noresO t m ->
+  okP S [t] [] w m (fun _ w' => cur w' = Some t /\ NoResAt w' t).
 Proof.
-  intros Ht Hc. destruct m as [x w1|k w1|]; cbn; [| |tauto].
-  - intros L. split; [apply (leaf_post S t [] w w1 L Ht)|rewrite (lf_cur _ _ _ L); exact Hc].
-  - intros [->|L]; [left; reflexivity|right]. apply (leaf_postA S t w w1 L).
+  intros Ht Hc Ho Hn. destruct m as [x w1|k w1|]; cbn; [| |tauto].
+  - intros L N1. split; [apply (leaf_post S t [] w w1 L Ht Ho)|]. split; [rewrite (lf_cur _ _ _ L); exact Hc|exact N1].
+  - intros [->|[U L]] _; [left; reflexivity|right]. split; [exact U|]. apply (leaf_postA S t w w1 L Ho).
 Qed.
 
 Lemma chain_post w w1 S t pend seg : Chain w (t :: S) -> Post S [t] pend w w1 seg -> Chain w1 (t :: S).
@@ -417,13 +575,14 @@ Variable OC : ocid -> ochecker.
 Variable P : task -> prog.
 
 (* make_task_consistent entered for t below the stack S: nothing recorded for a stack task changes, nothing on the stack is
-   executed or marked, every executed task was not consistent before and is consistent afterwards *)
+   executed or marked, every executed task was not consistent before and is consistent afterwards; the only aborts are
+   user-level ones, and both invariants hold in the store that is left *)
 Definition MCspec (mc : world -> task -> outcome Z) : Prop :=
-  forall w t S, StoreOK w -> Chain w S -> entry_ok w S t ->
+  forall w t S, StoreOK w -> Inv2 w -> Chain w S -> entry_ok w S t ->
     okP S [] [] w (mc w t) (fun _ w' => cur w' = cur w).
 Definition REQspec (t : task) (S : list task) (req : world -> task -> ocid -> outcome Z) : Prop :=
-  forall w x c, StoreOK w -> Chain w (t :: S) -> cur w = Some t ->
-    okP S [t] [] w (req w x c) (fun _ w' => cur w' = Some t).
+  forall w x c, StoreOK w -> Inv2 w -> Chain w (t :: S) -> cur w = Some t -> get_task_output w t = None -> NoResAt w t ->
+    okP S [t] [] w (req w x c) (fun _ w' => cur w' = Some t /\ NoResAt w' t).
 
 Lemma leaf_chain w w' S t : Chain w (t :: S) -> Leaf t w w' -> Chain w' (t :: S).
 Proof.
@@ -433,83 +592,138 @@ Qed.
 
 Lemma require_with_spec mc t S : MCspec mc -> REQspec t S (require_with OC mc).
 Proof.
-  intros HM w x c H C Hc. pose proof (chain_head_notin _ _ _ C) as Ht. unfold require_with.
+  intros HM w x c H J C Hc Ho Hn. pose proof (chain_head_notin _ _ _ C) as Ht. unfold require_with.
   assert (L2 : Leaf t w (get_or_create_task_node (emit w (ERequireStart x c)) x)).
   { eapply leaf_trans; [apply (leaf_emit t w (ERequireStart x c) H Logic.I)|apply leaf_goc_task; exact H]. }
   set (w2 := get_or_create_task_node (emit w (ERequireStart x c)) x) in *.
   assert (Hc2 : cur w2 = Some t) by (rewrite (lf_cur _ _ _ L2); exact Hc).
+  assert (N2 : NoResAt w2 t) by (eapply nores_same; [|exact Hn]; intros u v; unfold w2; rewrite edata_goc_task; reflexivity).
   unfold reserve_require_dependency. rewrite Hc2.
   pose proof (leaf_add_dependency t w2 (tn x) DReserved (lf_ok _ _ _ L2) (tn_even x)) as A.
+  pose proof (add_dependency_edata w2 (tn t) (tn x) DReserved (proj1 (lf_ok _ _ _ L2))) as ED.
   assert (Hw : is_write (Some DReserved) = true -> forall r, tn x = rn r -> writers (gr w2) r = []) by (intros X; discriminate).
   specialize (A Hw).
   destruct (add_dependency w2 (tn t) (tn x) DReserved) as [[| |] w3] eqn:AD; cbn [bind].
   - assert (L3 : Leaf t w w3) by (eapply leaf_trans; eassumption).
     assert (E3 : edge w3 t x) by (eapply add_dependency_edge; [apply (lf_ok _ _ _ L2)|exact AD]).
     assert (Hc3 : cur w3 = Some t) by (rewrite (lf_cur _ _ _ L3); exact Hc).
-    destruct (leaf_post S t [] w w3 L3 Ht) as [s03 P03]. eapply okP_pre; [exact P03|].
-    pose proof (leaf_chain w w3 S t C L3) as C3.
-    apply (okP_bind S [t] [] w3 (mc w3 x) _ (fun _ w' => cur w' = Some t)).
-    + apply okP_shift. eapply okP_extra; [|apply (HM w3 x (t :: S) (lf_ok _ _ _ L3) C3 E3)].
-      intros a0 w' X. cbn beta in X. rewrite X. exact Hc3.
-    + intros o w4 s4 P4 Hc4.
-      set (w5 := emit w4 (ERequireEnd x c (oc_stamp (OC c) o) o)).
-      assert (P45 : Post S [t] [] w4 w5 [ERequireEnd x c (oc_stamp (OC c) o) o]) by (apply post_emit; [apply (po_ok _ _ _ _ _ _ P4)|exact Logic.I]).
+    assert (Ho3 : get_task_output w3 t = None) by (rewrite (leaf_out t w w3 t L3); exact Ho).
+    assert (D3 : get_edata (gr w3) (tn t) (tn x) <> None) by (apply (wf_edata _ (proj1 (lf_ok _ _ _ L3))); exact E3).
+    assert (N3 : forall d, d <> tn x -> get_edata (gr w3) (tn t) d <> Some DReserved).
+    { intros d Hd. destruct (ED (tn t) d) as [Y|[_ [Y _]]]; [rewrite Y; apply N2|congruence]. }
+    destruct (leaf_post S t [] w w3 L3 Ht Ho) as [s03 P03]. eapply okP_pre; [exact P03|].
+    pose proof (leaf_chain w w3 S t C L3) as C3. pose proof (po_inv _ _ _ _ _ _ P03 J) as J3.
+    pose proof (HM w3 x (t :: S) (lf_ok _ _ _ L3) J3 C3 E3) as M.
+    destruct (mc w3 x) as [o w4|k w4|]; cbn [bind]; [| |exact Logic.I].
+    + destruct M as [[s4 P4] Hc4]. cbn beta in Hc4. rewrite Hc3 in Hc4.
+      eapply okP_pre; [apply post_shift; exact P4|].
+      pose proof (po_ok _ _ _ _ _ _ P4) as H4. pose proof (po_inv _ _ _ _ _ _ P4 J3) as J4.
+      set (st := oc_stamp (OC c) o).
+      set (w5 := emit w4 (ERequireEnd x c st o)).
+      assert (P45 : Post S [t] [] w4 w5 [ERequireEnd x c st o]) by (apply post_emit; [exact H4|exact Logic.I]).
       eapply okP_pre; [exact P45|].
-      pose proof (pr_update _ _ (StoreOK_preserved RC) w5 x c (oc_stamp (OC c) o) (po_ok _ _ _ _ _ _ P45)) as U.
+      pose proof (pr_update _ _ (StoreOK_preserved RC) w5 x c st H4) as U.
+      assert (E5 : forall d, get_edata (gr w5) (tn t) d = get_edata (gr w3) (tn t) d).
+      { intros d. change (gr w5) with (gr w4). apply (po_eframe _ _ _ _ _ _ P4). left. reflexivity. }
+      assert (Ho5 : get_task_output w5 t = None).
+      { change (get_task_output w4 t = None). rewrite (po_oframe _ _ _ _ _ _ P4) by (left; left; reflexivity). exact Ho3. }
       unfold update_require_dependency in *. change (cur w5) with (cur w4) in *. rewrite Hc4 in *.
-      destruct (get_edata (gr w5) (tn t) (tn x)) as [dd|]; cbn [bind].
-      * cbn in U. split; [|exact Hc4]. exists []. apply post_quiet; try reflexivity; [exact U|tauto].
-      * right. exists []. apply (post_to_A S [t] []). apply post_refl. apply (po_ok _ _ _ _ _ _ P45).
-  - right. apply (leaf_postA S t w w3). eapply leaf_trans; eassumption.
+      destruct (get_edata (gr w5) (tn t) (tn x)) as [dd|] eqn:X5; cbn [bind]; [|exfalso; rewrite E5 in X5; contradiction].
+      cbn [Inv.okO] in U.
+      set (w6 := set_gr w5 (insert_edata (gr w5) (tn t) (tn x) (DRequire x c st))) in *.
+      assert (L6 : Leaf t w5 w6).
+      { constructor; [exact U|apply same_grows; apply insert_edata_same|exists []; split; reflexivity|reflexivity|reflexivity| |reflexivity].
+        intros m d Hm. unfold w6. cbn [gr set_gr]. rewrite get_edata_insert.
+        destruct (pair_eqb (tn t, tn x) (m, d)) eqn:Z; [|reflexivity]. apply pair_eqb_eq in Z. inversion Z. congruence. }
+      split; [apply (leaf_post S t [] w5 w6 L6 Ht Ho5)|]. split; [exact Hc4|].
+      intros d. unfold w6. cbn [gr set_gr]. rewrite get_edata_insert.
+      destruct (pair_eqb (tn t, tn x) (tn t, d)) eqn:Z; [discriminate|]. rewrite E5. apply N3.
+      intros ->. rewrite (proj2 (pair_eqb_eq _ _) eq_refl) in Z. discriminate.
+    + destruct M as [->|[U [s4 PA]]]; [left; reflexivity|right]. split; [exact U|]. exists s4. apply postA_shift. exact PA.
+  - right. split; [exact Logic.I|]. apply (leaf_postA S t w w3); [eapply leaf_trans; eassumption|exact Ho].
   - left. reflexivity.
 Qed.
 
 Lemma exec_prog_spec t S req : REQspec t S req ->
-  forall p w, StoreOK w -> Chain w (t :: S) -> cur w = Some t ->
-    okP S [t] [] w (exec_prog RC OC req p w) (fun _ w' => cur w' = Some t).
+  forall p w, StoreOK w -> Inv2 w -> Chain w (t :: S) -> cur w = Some t -> get_task_output w t = None -> NoResAt w t ->
+    okP S [t] [] w (exec_prog RC OC req p w) (fun _ w' => cur w' = Some t /\ NoResAt w' t).
 Proof.
-  intros HR. induction p as [o| |x c k IH|r c k IH|r c v k IH|r c v k IH]; intros w H C Hc; cbn [exec_prog];
+  intros HR. induction p as [o| |x c k IH|r c k IH|r c v k IH|r c v k IH]; intros w H J C Hc Ho Hn; cbn [exec_prog];
     pose proof (chain_head_notin _ _ _ C) as Ht.
-  - split; [exists []; apply post_refl; exact H|exact Hc].
-  - right. exists []. apply (post_to_A S [t] []). apply post_refl. exact H.
-  - eapply okP_bind; [apply HR; assumption|]. intros o w1 s1 P1 Hc1. apply IH; [apply (po_ok _ _ _ _ _ _ P1)|eapply chain_post; eassumption|exact Hc1].
-  - eapply okP_bind; [apply okP_of_leafO; [exact Ht|exact Hc|apply (sess_read_leaf RC w t r c H Hc)]|].
-    intros o w1 s1 P1 Hc1. apply IH; [apply (po_ok _ _ _ _ _ _ P1)|eapply chain_post; eassumption|exact Hc1].
-  - eapply okP_bind; [apply okP_of_leafO; [exact Ht|exact Hc|apply (sess_write_leaf RC w t r c v H Hc)]|].
-    intros o w1 s1 P1 Hc1. apply IH; [apply (po_ok _ _ _ _ _ _ P1)|eapply chain_post; eassumption|exact Hc1].
-  - eapply okP_bind; [apply okP_of_leafO; [exact Ht|exact Hc|apply (sess_written_to_leaf RC w t r c v H Hc)]|].
-    intros o w1 s1 P1 Hc1. apply IH; [apply (po_ok _ _ _ _ _ _ P1)|eapply chain_post; eassumption|exact Hc1].
+  - split; [exists []; apply post_refl; exact H|split; [exact Hc|exact Hn]].
+  - apply okP_abort; [exact Logic.I|exact H].
+  - eapply okP_bind; [apply HR; assumption|]. intros o w1 s1 P1 [Hc1 Hn1].
+    apply IH; [apply (po_ok _ _ _ _ _ _ P1)|apply (po_inv _ _ _ _ _ _ P1 J)|eapply chain_post; eassumption|exact Hc1| |exact Hn1].
+    rewrite (po_oframe _ _ _ _ _ _ P1) by (right; left; reflexivity). exact Ho.
+  - eapply okP_bind; [apply okP_of_leafO; [exact Ht|exact Hc|exact Ho|exact Hn|apply (sess_read_leaf RC w t r c H Hc)|apply (sess_read_nores RC w t r c H Hc Hn)]|].
+    intros o w1 s1 P1 [Hc1 Hn1].
+    apply IH; [apply (po_ok _ _ _ _ _ _ P1)|apply (po_inv _ _ _ _ _ _ P1 J)|eapply chain_post; eassumption|exact Hc1| |exact Hn1].
+    rewrite (po_oframe _ _ _ _ _ _ P1) by (right; left; reflexivity). exact Ho.
+  - eapply okP_bind; [apply okP_of_leafO; [exact Ht|exact Hc|exact Ho|exact Hn|apply (sess_write_leaf RC w t r c v H Hc)|apply (sess_write_nores RC w t r c v H Hc Hn)]|].
+    intros o w1 s1 P1 [Hc1 Hn1].
+    apply IH; [apply (po_ok _ _ _ _ _ _ P1)|apply (po_inv _ _ _ _ _ _ P1 J)|eapply chain_post; eassumption|exact Hc1| |exact Hn1].
+    rewrite (po_oframe _ _ _ _ _ _ P1) by (right; left; reflexivity). exact Ho.
+  - eapply okP_bind; [apply okP_of_leafO; [exact Ht|exact Hc|exact Ho|exact Hn|apply (sess_written_to_leaf RC w t r c v H Hc)|apply (sess_written_to_nores RC w t r c v H Hc Hn)]|].
+    intros o w1 s1 P1 [Hc1 Hn1].
+    apply IH; [apply (po_ok _ _ _ _ _ _ P1)|apply (po_inv _ _ _ _ _ _ P1 J)|eapply chain_post; eassumption|exact Hc1| |exact Hn1].
+    rewrite (po_oframe _ _ _ _ _ _ P1) by (right; left; reflexivity). exact Ho.
 Qed.
 
 Lemma reset_task_facts w t : StoreOK w ->
   StoreOK (reset_task w t) /\
   (forall m, m <> tn t -> kids_of (gr (reset_task w t)) m = kids_of (gr w) m) /\
   (forall m, live (gr w) m = true -> live (gr (reset_task w t)) m = true) /\
-  trace (reset_task w t) = trace w /\ consistent (reset_task w t) = consistent w /\ cur (reset_task w t) = cur w.
+  trace (reset_task w t) = trace w /\ consistent (reset_task w t) = consistent w /\ cur (reset_task w t) = cur w /\
+  (forall m d, m <> tn t -> get_edata (gr (reset_task w t)) m d = get_edata (gr w) m d) /\
+  (forall d, get_edata (gr (reset_task w t)) (tn t) d = None) /\
+  get_task_output (reset_task w t) t = None /\
+  (forall s, s <> t -> get_task_output (reset_task w t) s = get_task_output w s).
 Proof.
-  intros H. destruct (remove_outgoing_other (gr w) (tn t) (proj1 H)) as [K [L _]].
-  split; [apply GOK_remove_outgoing; exact H|]. split; [exact K|]. split; [exact L|]. repeat split.
+  intros H. destruct (remove_outgoing_other (gr w) (tn t) (proj1 H)) as [K [L K0]].
+  assert (H1 : StoreOK (reset_task w t)) by (apply GOK_remove_outgoing; exact H).
+  split; [exact H1|]. split; [exact K|]. split; [exact L|]. split; [reflexivity|]. split; [reflexivity|]. split; [reflexivity|].
+  split; [|split; [|split]].
+  - intros m d Hm. unfold reset_task. cbn [gr set_gr set_outs]. destruct (live (gr w) (tn t)) eqn:Lt.
+    + destruct (remove_outgoing_view (gr w) (tn t) (proj1 H) Lt) as [_ [_ [_ [_ [_ [_ VE]]]]]]. rewrite VE.
+      destruct (N.eqb_spec m (tn t)); [congruence|reflexivity].
+    + rewrite remove_outgoing_snd, Lt. reflexivity.
+  - intros d. destruct (get_edata (gr (reset_task w t)) (tn t) d) eqn:X; [|reflexivity]. exfalso.
+    assert (Y : In d (kids_of (gr (reset_task w t)) (tn t))) by (apply (wf_edata _ (proj1 H1)); congruence).
+    unfold reset_task in Y. cbn [gr set_gr set_outs] in Y. rewrite K0 in Y. destruct Y.
+  - unfold get_task_output, reset_task. cbn [outs set_gr set_outs]. apply alookup_aremove_eq.
+  - intros s Hs. unfold get_task_output, reset_task. cbn [outs set_gr set_outs]. apply alookup_aremove_other. exact Hs.
 Qed.
 
 Lemma execute_with_spec t S req : REQspec t S req ->
-  forall w, StoreOK w -> Chain w (t :: S) -> memN t (consistent w) = false ->
-    okP S [] [t] w (execute_with RC OC P req w t) (fun _ w' => cur w' = cur w).
+  forall w, StoreOK w -> Inv2 w -> Chain w (t :: S) -> memN t (consistent w) = false ->
+    okP S [] [t] w (execute_with RC OC P req w t) (fun o w' => cur w' = cur w /\ get_task_output w' t = Some o).
 Proof.
-  intros HR w H C Hn. pose proof (chain_head_notin _ _ _ C) as Ht. unfold execute_with.
-  destruct (reset_task_facts w t H) as [H1 [K1 [L1 [T1 [C1 U1]]]]].
+  intros HR w H J C Hn. pose proof (chain_head_notin _ _ _ C) as Ht. unfold execute_with.
+  destruct (reset_task_facts w t H) as [H1 [K1 [L1 [T1 [C1 [U1 [E1 [E0 [O0 O1]]]]]]]]].
   set (w1 := reset_task w t) in *.
   set (w2 := emit (set_cur w1 (Some t)) (EExecStart t)).
   assert (H2 : StoreOK w2) by exact H1.
+  assert (J1 : Inv2 w1).
+  { destruct J as [N Co]. split.
+    - intros t' d X. destruct (N.eq_dec t' t) as [->|Hne]; [exact O0|]. rewrite O1 by exact Hne.
+      rewrite E1 in X by (intros E; apply tn_inj in E; contradiction). apply (N t' d X).
+    - intros t' X. rewrite C1 in X. destruct (N.eq_dec t' t) as [->|Hne]; [congruence|]. rewrite O1 by exact Hne. apply (Co t' X). }
+  assert (J2 : Inv2 w2) by exact J1.
   assert (Ch2 : Chain w2 (t :: S)).
   { destruct C as [N C]. split; [exact N|]. apply (chain_grow w w2); [exact C|].
     intros s Hs. apply K1. intros E. apply tn_inj in E. subst. tauto. }
-  pose proof (exec_prog_spec t S req HR (P t) w2 H2 Ch2 eq_refl) as B.
+  assert (N2 : NoResAt w2 t) by (intros d; change (gr w2) with (gr w1); rewrite E0; discriminate).
+  pose proof (exec_prog_spec t S req HR (P t) w2 H2 J2 Ch2 eq_refl O0 N2) as B.
   destruct (exec_prog RC OC req (P t) w2) as [o w3|k w3|]; cbn [bind okP] in *; [| |exact Logic.I].
-  - destruct B as [[body [A1 A2 A3 A4 A5 A6 A7 A8 A9 A10]] Hc3]. split; [|exact U1].
+  - destruct B as [[body [A1 A2 A3 A4 A5 A6 A7 A8 A9 A10 A11 A12 A13]] [Hc3 Hn3]].
+    set (w4 := set_task_output (set_cur (emit w3 (EExecEnd t o)) (cur w1)) t o).
+    split; [|split; [exact U1|apply alookup_aset_eq]].
     exists (EExecStart t :: body ++ [EExecEnd t o]).
     assert (EX : execs (EExecStart t :: body ++ [EExecEnd t o]) = t :: execs body).
     { change (EExecStart t :: body ++ [EExecEnd t o]) with ([EExecStart t] ++ body ++ [EExecEnd t o]).
       rewrite !execs_app. cbn. rewrite app_nil_r. reflexivity. }
+    assert (O4 : forall s, s <> t -> get_task_output w4 s = get_task_output w3 s).
+    { intros s Hs. unfold get_task_output, w4, set_task_output. cbn [outs set_outs set_cur emit]. apply alookup_aset_other. exact Hs. }
     constructor.
     + apply (pr_exec_end _ _ (StoreOK_preserved RC)). exact A1.
     + intros s Hs. change (kids_of (gr w3) (tn s) = kids_of (gr w) (tn s)). rewrite A2 by exact Hs. change (gr w2) with (gr w1).
@@ -526,7 +740,17 @@ Proof.
     + rewrite EX. intros x [<-|X]; [right; left; reflexivity|]. left. destruct (A9 x X) as [Z|[]]. exact Z.
     + intros s [Hs|[]] X. change (memN s (consistent w3) = true) in X. apply A10 in X; [|left; exact Hs].
       change (consistent w2) with (consistent w1) in X. rewrite C1 in X. exact X.
-  - destruct B as [->|[body [A1 A5 A6 A7]]]; [left; reflexivity|right].
+    + intros s d Hs. change (get_edata (gr w3) (tn s) d = get_edata (gr w) (tn s) d). rewrite A11 by exact Hs. change (gr w2) with (gr w1).
+      apply E1. intros E. apply tn_inj in E. subst. tauto.
+    + intros s [Hs|[]]. assert (s <> t) by (intros ->; tauto). rewrite O4 by assumption. rewrite A12 by (left; exact Hs).
+      change (get_task_output w1 s = get_task_output w s). apply O1. assumption.
+    + intros _. destruct (A13 J2) as [N3 Co3]. split.
+      * intros t' d X. change (gr w4) with (gr w3) in X. destruct (N.eq_dec t' t) as [->|Hne]; [exfalso; apply (Hn3 d X)|].
+        rewrite O4 by exact Hne. apply (N3 t' d X).
+      * intros t' X. change (consistent w4) with (consistent w3) in X. destruct (N.eq_dec t' t) as [->|Hne].
+        -- unfold w4, get_task_output, set_task_output. cbn [outs set_outs]. rewrite alookup_aset_eq. discriminate.
+        -- rewrite O4 by exact Hne. apply (Co3 t' X).
+  - destruct B as [->|[U [body [A1 A5 A6 A7 A13]]]]; [left; reflexivity|right]. split; [exact U|].
     exists (EExecStart t :: body).
     assert (EX : execs (EExecStart t :: body) = t :: execs body) by reflexivity.
     constructor.
@@ -536,38 +760,49 @@ Proof.
     + rewrite EX. constructor; [|exact A6]. intros X. destruct (A7 t X) as [_ [Y _]]. apply Y. left. reflexivity.
     + rewrite EX. intros x [<-|X]; [split; [exact Ht|split; [intros []|exact Hn]]|].
       destruct (A7 x X) as [Q1 [Q2 Q3]]. split; [exact Q1|]. split; [intros []|]. change (consistent w2) with (consistent w1) in Q3. rewrite C1 in Q3. exact Q3.
+    + intros _. apply A13. exact J2.
 Qed.
 
 Lemma exec_mark_spec t S req : REQspec t S req ->
-  forall w, StoreOK w -> Chain w (t :: S) -> memN t (consistent w) = false ->
+  forall w, StoreOK w -> Inv2 w -> Chain w (t :: S) -> memN t (consistent w) = false ->
     okP S [] [] w (bind (execute_with RC OC P req w t) (fun o w2 => Done o (mark_consistent w2 t))) (fun _ w' => cur w' = cur w).
 Proof.
-  intros HR w H C Hn. pose proof (execute_with_spec t S req HR w H C Hn) as E.
+  intros HR w H J C Hn. pose proof (execute_with_spec t S req HR w H J C Hn) as E.
   destruct (execute_with RC OC P req w t) as [o w2|k w2|]; cbn [bind okP] in *; [| |exact Logic.I].
-  - destruct E as [[seg Q] Hc]. split; [|exact Hc]. exists seg. apply post_mark; [exact Q|eapply chain_head_notin; exact C|intros []].
+  - destruct E as [[seg Q] [Hc Ho]]. split; [|exact Hc]. exists seg.
+    apply post_mark; [exact Q|eapply chain_head_notin; exact C|intros []|congruence].
   - exact E.
 Qed.
 
-Lemma deps_edge w t x c st : StoreOK w -> In (Some (DRequire x c st)) (deps_of_task w t) -> edge w t x.
+(* the recorded dependencies of a task with an output: all carry data, none is a reservation, requires point along edges *)
+Definition dep_ok (w : world) (t : task) (d : option dep) : Prop :=
+  exists dp, d = Some dp /\ dp <> DReserved /\ forall x c st, dp = DRequire x c st -> edge w t x.
+Lemma deps_ok w t o : StoreOK w -> Inv2 w -> get_task_output w t = Some o -> forall d, In d (deps_of_task w t) -> dep_ok w t d.
 Proof.
-  intros [_ [T _]] Hin. unfold deps_of_task, get_outgoing_edges in Hin. rewrite map_map in Hin. cbn [snd] in Hin.
-  apply in_map_iff in Hin. destruct Hin as [d [E Hd]]. destruct (T _ _ _ E) as [_ X]. cbn in X. subst d. exact Hd.
+  intros [W [T _]] [N _] Ho d Hin. unfold deps_of_task, get_outgoing_edges in Hin. rewrite map_map in Hin. cbn [snd] in Hin.
+  apply in_map_iff in Hin. destruct Hin as [v [E Hv]].
+  destruct (get_edata (gr w) (tn t) v) as [dp|] eqn:X; [|exfalso; apply (wf_edata _ W (tn t) v) in Hv; contradiction].
+  subst d. exists dp. split; [reflexivity|]. split.
+  - intros ->. rewrite (N t v X) in Ho. discriminate.
+  - intros x c st ->. destruct (T _ _ _ X) as [_ Y]. cbn in Y. subst v. exact Hv.
 Qed.
 
 Lemma check_deps_spec mc t S : MCspec mc ->
-  forall ds w, StoreOK w -> Chain w (t :: S) -> (forall x c st, In (Some (DRequire x c st)) ds -> edge w t x) ->
+  forall ds w, StoreOK w -> Inv2 w -> Chain w (t :: S) -> (forall d, In d ds -> dep_ok w t d) ->
     okP (t :: S) [] [] w (check_deps RC OC mc ds w) (fun _ w' => cur w' = cur w).
 Proof.
-  intros HM. induction ds as [|d tl IH]; intros w H C HE; cbn [check_deps].
+  intros HM. induction ds as [|d tl IH]; intros w H J C HE; cbn [check_deps].
   - split; [exists []; apply post_refl; exact H|reflexivity].
-  - assert (AB : forall k, okP (t :: S) [] [] w (Abort k w : outcome bool) (fun _ w' => cur w' = cur w)).
-    { intros k. right. exists []. apply (post_to_A (t :: S) [] []). apply post_refl. exact H. }
-    destruct d as [[|x c st|r c st|r c st]|]; try apply AB.
+  - destruct (HE d (or_introl eq_refl)) as [dp [-> [NR HX]]].
+    assert (HE' : forall w', kids_of (gr w') (tn t) = kids_of (gr w) (tn t) -> forall d, In d tl -> dep_ok w' t d).
+    { intros w' K d Hd. destruct (HE d (or_intror Hd)) as [dp' [-> [NR' HX']]]. exists dp'. split; [reflexivity|]. split; [exact NR'|].
+      intros x c st E. unfold edge. rewrite K. apply (HX' x c st E). }
+    destruct dp as [|x c st|r c st|r c st]; [congruence| | |].
     + set (w1 := emit w (ECheckTaskStart x c st)).
       assert (P1 : Post (t :: S) [] [] w w1 [ECheckTaskStart x c st]) by (apply post_emit; [exact H|exact Logic.I]).
       eapply okP_pre; [exact P1|].
       apply (okP_bind (t :: S) [] [] w1 (mc w1 x) _ (fun _ w' => cur w' = cur w1)).
-      * apply HM; [exact H|apply (chain_post_all w w1 _ _ _ C P1)|]. cbn. apply (HE x c st). left. reflexivity.
+      * apply HM; [exact H|apply (po_inv _ _ _ _ _ _ P1 J)|apply (chain_post_all w w1 _ _ _ C P1)|]. cbn. apply (HX x c st eq_refl).
       * intros o w2 s2 P2 Hc2.
         set (w3 := emit w2 (ECheckTaskEnd x c st (negb (oc_check (OC c) o st)))).
         assert (P3 : Post (t :: S) [] [] w2 w3 [ECheckTaskEnd x c st (negb (oc_check (OC c) o st))]) by (apply post_emit; [apply (po_ok _ _ _ _ _ _ P2)|exact Logic.I]).
@@ -576,9 +811,9 @@ Proof.
         -- eapply okP_extra; [|apply IH].
            ++ intros a w' X. cbn beta in *. rewrite X. exact Hc2.
            ++ apply (po_ok _ _ _ _ _ _ P3).
+           ++ apply (po_inv _ _ _ _ _ _ P3). apply (po_inv _ _ _ _ _ _ P2). apply (po_inv _ _ _ _ _ _ P1 J).
            ++ eapply (chain_post_all w w3); [exact C|]. eapply (post_seq _ _ _ w w1 w3); [exact P1|]. eapply (post_seq _ _ _ w1 w2 w3); eassumption.
-           ++ intros y c' st' Y. unfold edge. change (gr w3) with (gr w2). rewrite (po_frame _ _ _ _ _ _ P2) by (left; reflexivity).
-              apply (HE y c' st'). right. exact Y.
+           ++ apply HE'. change (gr w3) with (gr w2). apply (po_frame _ _ _ _ _ _ P2). left. reflexivity.
         -- split; [exists []; apply post_refl; apply (po_ok _ _ _ _ _ _ P3)|exact Hc2].
     + unfold check_resource_td. cbv zeta.
       set (w1 := emit w (ECheckResStart r c st)).
@@ -587,9 +822,9 @@ Proof.
       assert (P2 : Post (t :: S) [] [] w w2 ([ECheckResStart r c st] ++ [ECheckResEnd r c st xx])).
       { eapply post_seq; apply post_emit; try exact H; exact Logic.I. }
       destruct xx as [| |e]; cbv iota beta.
-      * eapply okP_pre; [exact P2|]. eapply okP_extra; [|apply (IH w2); [exact H|apply (chain_post_all w w2 _ _ _ C P2)|]].
+      * eapply okP_pre; [exact P2|]. eapply okP_extra; [|apply (IH w2); [exact H|apply (po_inv _ _ _ _ _ _ P2 J)|apply (chain_post_all w w2 _ _ _ C P2)|]].
         -- intros a w' X. exact X.
-        -- intros y c' st' Y. apply (HE y c' st'). right. exact Y.
+        -- apply HE'. reflexivity.
       * split; [eexists; exact P2|reflexivity].
       * split; [|reflexivity]. eexists. eapply post_seq; [exact P2|]. apply post_push_err. exact H.
     + unfold check_resource_td. cbv zeta.
@@ -599,29 +834,31 @@ Proof.
       assert (P2 : Post (t :: S) [] [] w w2 ([ECheckResStart r c st] ++ [ECheckResEnd r c st xx])).
       { eapply post_seq; apply post_emit; try exact H; exact Logic.I. }
       destruct xx as [| |e]; cbv iota beta.
-      * eapply okP_pre; [exact P2|]. eapply okP_extra; [|apply (IH w2); [exact H|apply (chain_post_all w w2 _ _ _ C P2)|]].
+      * eapply okP_pre; [exact P2|]. eapply okP_extra; [|apply (IH w2); [exact H|apply (po_inv _ _ _ _ _ _ P2 J)|apply (chain_post_all w w2 _ _ _ C P2)|]].
         -- intros a w' X. exact X.
-        -- intros y c' st' Y. apply (HE y c' st'). right. exact Y.
+        -- apply HE'. reflexivity.
       * split; [eexists; exact P2|reflexivity].
       * split; [|reflexivity]. eexists. eapply post_seq; [exact P2|]. apply post_push_err. exact H.
 Qed.
 
 Lemma goc_task_post S w t : StoreOK w -> Post S [] [] w (get_or_create_task_node w t) [].
 Proof.
-  intros H. pose proof (leaf_goc_task t w t H) as [A1 [G1 [G2 G3]] _ A4 _].
+  intros H. pose proof (leaf_goc_task t w t H) as [A1 [G1 [G2 G3]] _ A4 _ _ A7].
   assert (K : forall m, kids_of (gr (get_or_create_task_node w t)) m = kids_of (gr w) m).
   { intros m. unfold get_or_create_task_node. destruct (live (gr w) (tn t)) eqn:L; [reflexivity|]. apply (add_node_same _ _ L). }
-  apply post_quiet; try assumption. unfold get_or_create_task_node. destruct (live _ _); reflexivity.
+  apply post_quiet; try assumption.
+  - unfold get_or_create_task_node. destruct (live _ _); reflexivity.
+  - intros u v. apply edata_goc_task.
 Qed.
 
 Theorem make_consistent_td_spec fuel : MCspec (make_consistent_td RC OC P fuel).
 Proof.
-  induction fuel as [|f IH]; intros w t S H C E; cbn [make_consistent_td]; [exact Logic.I|].
+  induction fuel as [|f IH]; intros w t S H J C E; cbn [make_consistent_td]; [exact Logic.I|].
   pose proof (goc_task_post S w t H) as P0.
   set (w0 := get_or_create_task_node w t) in *.
   assert (Hc0 : cur w0 = cur w) by (unfold w0, get_or_create_task_node; destruct (live _ _); reflexivity).
   eapply okP_pre; [exact P0|]. eapply okP_extra; [intros a w' X; rewrite <- Hc0; exact X|].
-  pose proof (po_ok _ _ _ _ _ _ P0) as H0.
+  pose proof (po_ok _ _ _ _ _ _ P0) as H0. pose proof (po_inv _ _ _ _ _ _ P0 J) as J0.
   pose proof (chain_post_all w w0 S [] [] C P0) as C0.
   assert (E0 : entry_ok w0 S t).
   { destruct S as [|top tl]; [exact Logic.I|]. cbn in *. unfold edge in *. rewrite (po_frame _ _ _ _ _ _ P0) by (left; reflexivity). exact E. }
@@ -630,22 +867,22 @@ Proof.
   { destruct C0 as [N0 K0]. split; [constructor; assumption|]. destruct S as [|top tl]; [exact Logic.I|]. split; [exact E0|exact K0]. }
   pose proof (require_with_spec (make_consistent_td RC OC P f) t S IH) as HR.
   destruct (memN t (consistent w0)) eqn:Hm.
-  - destruct (get_task_output w0 t).
+  - destruct (get_task_output w0 t) eqn:Ho.
     + split; [exists []; apply post_refl; exact H0|reflexivity].
-    + right. exists []. apply (post_to_A S [] []). apply post_refl. exact H0.
-  - destruct (get_task_output w0 t) as [o0|].
-    + pose proof (check_deps_spec (make_consistent_td RC OC P f) t S IH (deps_of_task w0 t) w0 H0 C1) as CD.
-      assert (HE : forall x c st, In (Some (DRequire x c st)) (deps_of_task w0 t) -> edge w0 t x) by (intros x c st; apply deps_edge; exact H0).
-      specialize (CD HE).
+    + exfalso. apply (proj2 J0 t Hm). exact Ho.
+  - destruct (get_task_output w0 t) as [o0|] eqn:Ho.
+    + pose proof (check_deps_spec (make_consistent_td RC OC P f) t S IH (deps_of_task w0 t) w0 H0 J0 C1 (deps_ok w0 t o0 H0 J0 Ho)) as CD.
       destruct (check_deps RC OC (make_consistent_td RC OC P f) (deps_of_task w0 t) w0) as [ok w1|k w1|]; cbn [bind]; [| |exact Logic.I].
       * destruct CD as [[s1 P1] Hc1]. pose proof (post_drop _ _ _ _ _ _ P1) as P1'.
         eapply okP_pre; [exact P1'|]. eapply okP_extra; [intros a w' X; rewrite <- Hc1; exact X|].
         assert (C1' : Chain w1 (t :: S)) by (eapply chain_post_all; eassumption).
+        pose proof (po_inv _ _ _ _ _ _ P1 J0) as J1.
         assert (Hm1 : memN t (consistent w1) = false).
         { destruct (memN t (consistent w1)) eqn:Z; [|reflexivity]. apply (po_keep _ _ _ _ _ _ P1) in Z; [congruence|left; left; reflexivity]. }
-        destruct (if ok then get_task_output w1 t else None) as [o|].
-        -- split; [|reflexivity]. exists []. apply post_mark; [|exact Ht|intros []].
-           apply post_pend. apply post_refl. apply (po_ok _ _ _ _ _ _ P1).
+        destruct (if ok then get_task_output w1 t else None) as [o|] eqn:Hok.
+        -- split; [|reflexivity]. exists []. apply post_mark; [|exact Ht|intros []|].
+           ++ apply post_pend. apply post_refl. apply (po_ok _ _ _ _ _ _ P1).
+           ++ destruct ok; [congruence|discriminate].
         -- apply exec_mark_spec; try assumption. apply (po_ok _ _ _ _ _ _ P1).
       * apply (okP_drop S t). exact CD.
     + apply exec_mark_spec; assumption.
